@@ -39,6 +39,7 @@ def setup(rep, tier):
     rep.minimum('R19.8', 1)
     rep.minimum('R19.9', 1)
     rep.minimum('R19.10', 3)
+    rep.minimum('R19.11', 1)
 
 
 def r19_12(rep, prog):
@@ -234,11 +235,7 @@ def r19_3(rep, prog):
     for n, lv in stores:
         r, path = sx.lvalue_root(lv)
         if sx.kind(r) == 'param' and r[1] == ppcm and path:
-            npcm += 1
-            if prog.macros.get('FIXED_POINT') and 'SATURATE' not in str(n):
-                # integer builds must saturate rather than wrap
-                if not any('SATURATE' in sx.macros(m) for m in sx.walk(n[2] if n[0] == 'assign' else n)):
-                    bad.append('integer PCM store `%s` does not go through SATURATE' % sx.show(n)[:40])
+            npcm += 1         # that the stored value is clamped to the full scale of the sample format is R19.9 (interval analysis), not a matter of which macro spells it
         elif sx.kind(lv) == 'local':
             continue
         else:
@@ -540,7 +537,61 @@ def r19_9(rep, prog):
     return n
 
 
+def r19_11(rep, prog):
+    """"saturates rather than wraps" also between the multiplication and the clamp: in the gain loop, an explicit narrowing
+    conversion (to 32 bits or fewer) of a wider intermediate may only be applied to a value the interval analysis bounds
+    inside the target type.  Samples take the full range of opus_res, the gain the full range of its type (the largest
+    legal gain is about 2^31 in Q16).  A clamp that sees an already truncated product cannot saturate."""
+    from .. import absint, roles
+    if 'FIXED_POINT' not in prog.macros:
+        return 0
+    n = 0
+    for f in roles.frame_decoders(prog):
+        if not any(sx.kind(y) == 'field' and y[3] == 'decode_gain' for x in f.all_nodes() for y in sx.walk(x)):
+            continue
+        cf = cfgm.CFG(f)
+        stores = [(b, i, node) for b, i, node in cf.find(lambda x: x[0] == 'assign' and sx.kind(sx.strip_paren(x[1])) == 'idx' and sx.kind(sx.strip(sx.strip_paren(x[1])[1])) == 'param' and sx.strip(sx.strip_paren(x[1])[1])[2] == 'pcm')
+                  if any(sx.kind(y) == 'local' for y in sx.walk(node[2]))]
+        if not stores:
+            continue
+        an = absint.Analyzer(prog, f, call_summary=absint.inline_summary(prog), havoc_fields_on_call=False)
+        blocks = {b for b, i, node in stores}
+        for h, latch, body in cf.natural_loops():
+            if blocks & body:
+                blocks |= body                      # the whole gain loop (the clamp's ?: splits its body into several blocks)
+        n += 1
+        rep.functions.add(f.name)
+        loop_where = '%s:%s' % (f.file, sx.line(stores[0][2]))
+        checked = bad = 0
+        for b in sorted(blocks):
+            items = list(cf.blocks[b]['stmts'])
+            for i, s_ in enumerate(items):
+                for c in sx.walk(s_):
+                    if sx.kind(c) != 'cast' or not isinstance(c[2], int) or c[2] > 32:
+                        continue
+                    inner = sx.strip(c[4])
+                    w_in = max([y[2] for y in sx.walk(inner) if sx.kind(y) == 'cast' and isinstance(y[2], int)] +
+                               [f.locals.get(y[2], {}).get('bits', 0) or 0 for y in sx.walk(inner) if sx.kind(y) == 'local'] + [0])
+                    if w_in <= c[2]:
+                        continue
+                    checked += 1
+                    st = an.state_before_node(b, i, c)
+                    v = an.ev(inner, st) if st is not None else None
+                    rng = absint.type_range(c[2], bool(c[3]))
+                    if v is not None and absint.meet(v, rng) == v:
+                        continue
+                    bad += 1
+                    rep.violated('R19.11', '%s:%s narrows the gain product to %d bits only when it fits' % (prog.config, f.name, c[2]), '%s:%s' % (f.file, sx.line(c) or sx.line(s_)),
+                                 '`%s` can reach %s before it is converted to %s: the product wraps and the clamp that follows saturates the wrapped value (a loud positive sample becomes full-scale negative)' %
+                                 (sx.show(inner)[:60], absint.show(v) if v else 'unknown', c[1]), key=f.name + ':gain-product-narrowed')
+        if not bad:
+            rep.holds('R19.11', '%s:%s gain loop: no wrapping conversion between the product and the clamp' % (prog.config, f.name), loop_where,
+                      '%d narrowing conversion(s) of a wider intermediate in the loop, each bounded inside its target type' % checked)
+    return n
+
+
 def check(rep, prog, tier):
+    r19_11(rep, prog)
     r19_9(rep, prog)
     from . import softclipmem
     softclipmem.check(rep, prog, 'R19.8', 'memory')
